@@ -3,6 +3,7 @@
   preemption step, in terms of `heldOf` (the amount a process holds, = the model's `heldAmount`) and the amount in use.
 -/
 import CimbaModel.Sim.S2PoolInv
+import CimbaModel.Sim.Basic
 
 namespace CimbaModel.Sim
 open CimbaModel CimbaModel.Event CimbaModel.Generated CimbaModel.KPQ
@@ -222,5 +223,84 @@ theorem heldOf_finishProc (w : World) (p : Pid) (v : Int) (st : Bool) (hi : Pool
   · exact heldOf_dropResources _ _ (hi.same (cancelAwaiteds_same _ _)) pl
   · refine Eq.trans (heldOf_viewSame (ViewSame.of_same (cancelAwaiteds_same _ _)) pl p) ?_
     exact heldOf_dropResources _ _ hi pl
+
+/-! ### preemption: one step of the mugging loop -/
+
+theorem removeHeld_prio (w : World) (p q : Pid) (h : HoldRef) : ((removeHeld w p h).1.proc q).prio = (w.proc q).prio := by
+  unfold removeHeld
+  rw [proc_modProc]
+  split
+  · rename_i hq; rw [hq.1]
+  · rfl
+
+/-- **preempt_strict**, refusing side: if the first holder in the holder order (lowest priority first) is not of strictly
+    lower priority than the caller, the loop takes nothing — and then no holder at all has a strictly lower priority -/
+theorem poolMug_refuses {w : World} {p : Pid} {pl : Nat} {x : Pool} (hi : PoolInv w) (hx : w.pools[pl]? = some x)
+    (hc : x.holders.count ≠ 0) (hge : ¬ (x.holders.tag 1).i < (w.proc p).prio) (fuel rem : Nat) :
+    poolMug (fuel + 1) w p pl rem = (w, some rem) ∧ ∀ t ∈ abs x.holders, ¬ t.i < (w.proc p).prio := by
+  have hv := poolView_of_get hx
+  have vok := (hi.2 pl _ hv).1
+  have hwf : WF holder_queue_check x.holders := vok.wf
+  have hpos : 0 < x.holders.count := by omega
+  constructor
+  · unfold poolMug
+    simp only [hx, hc, if_false, HashHeap.peek_spec hwf hpos, hge]
+  · intro t ht
+    have hmin := HashHeap.root_isMin_abs hwf hpos
+    have := hmin.2 t ht
+    have hn : ¬ HashHeap.SpecOrders.holderLt t (KPQ.norm (x.holders.tag 1)) := by
+      rw [← HashHeap.Orders.holder_queue_check_iff, this]; simp
+    unfold HashHeap.SpecOrders.holderLt at hn
+    simp only [KPQ.norm] at hn
+    omega
+
+/-- **preempt_strict**, taking side: the victim is the first holder, of strictly lower priority than the caller; it is
+    taken off the holder list, the pool off its held list, and an interrupt event with the PREEMPTED signal is scheduled
+    for it at the current time with the victim's priority; its `loot` goes to the caller (all of it, and the loop goes
+    on, or just the remaining claim, the surplus returning to the pool) -/
+theorem poolMug_takes {w : World} {p : Pid} {pl : Nat} {x : Pool} (hi : PoolInv w) (hx : w.pools[pl]? = some x)
+    (hc : x.holders.count ≠ 0) (hlt : (x.holders.tag 1).i < (w.proc p).prio) (fuel rem : Nat) :
+    ∃ h1 w3,
+      HashHeap.dequeue holder_queue_check x.holders = .ok (h1, some (x.holders.tag 1)) ∧
+      w3 = (sched (removeHeld { w with pools := w.pools.set! pl { x with holders := h1 } }
+              ((x.holders.tag 1).key - 1) (.pool pl)).1 aIntr ((x.holders.tag 1).key - 1 + 1) sigPreempted w.now
+              (w.proc ((x.holders.tag 1).key - 1)).prio).1 ∧
+      poolMug (fuel + 1) w p pl rem =
+        (if (x.holders.tag 1).item.b < rem then
+          poolMug fuel (poolUpdateRecord w3 pl p (x.holders.tag 1).item.b) p pl (rem - (x.holders.tag 1).item.b)
+        else
+          (signal (recordPool (setPoolInUse (poolUpdateRecord w3 pl p rem) pl
+            (((poolUpdateRecord w3 pl p rem).pools.getD pl x).inUse - ((x.holders.tag 1).item.b - rem))) pl) x.guard,
+            none)) ∧
+      (∃ e ∈ w3.ev.pending, e.item.a = aIntr ∧ e.item.b = (x.holders.tag 1).key - 1 + 1 ∧
+          e.item.c = encSig sigPreempted ∧ e.d = w.now ∧ e.i = (w.proc ((x.holders.tag 1).key - 1)).prio) ∧
+      (x.holders.tag 1).key - 1 < w.procs.size ∧ (x.holders.tag 1).key - 1 + 1 = (x.holders.tag 1).key ∧
+      heldOf w3 pl ((x.holders.tag 1).key - 1) = 0 ∧
+      heldOf w pl ((x.holders.tag 1).key - 1) = (x.holders.tag 1).item.b := by
+  have hv := poolView_of_get hx
+  have vok := (hi.2 pl _ hv).1
+  have hok : HoldersOK w.procs.size x.holders := vok.toHoldersOK
+  have hpos : 0 < x.holders.count := by omega
+  obtain ⟨h1, hdq, ok1, _, hkeys1, hmem1, hamt1, _, _⟩ := dequeue_holders hok hpos
+  obtain ⟨hk1, hk2⟩ := key_pred_succ hok hmem1
+  obtain ⟨h1', hdq', hst, _, _, _⟩ := (PSt.init hi hv).mug hx hpos
+  rw [hdq] at hdq'
+  injection hdq' with e; injection e with e1 _; subst e1
+  refine ⟨h1, _, hdq, rfl, ?_, ?_, hk2, hk1, ?_, ?_⟩
+  · conv => lhs; unfold poolMug
+    simp only [hx, hc, if_false, HashHeap.peek_spec hok.wf hpos, hlt, if_true, hdq]
+    have hnow : ∀ (W : World) (v : Pid) (h : HoldRef), (removeHeld W v h).1.now = W.now := fun _ _ _ => rfl
+    simp only [hnow, removeHeld_prio, proc_mk, now_mk]
+  · have hs := sched_ok (removeHeld { w with pools := w.pools.set! pl { x with holders := h1 } }
+      ((x.holders.tag 1).key - 1) (.pool pl)).1 aIntr ((x.holders.tag 1).key - 1 + 1) sigPreempted w.now
+      (w.proc ((x.holders.tag 1).key - 1)).prio (Int.le_refl _)
+    refine ⟨_, by rw [hs.2.1]; exact List.mem_cons_self, rfl, rfl, rfl, rfl, rfl⟩
+  · rw [(hst w.now (w.proc ((x.holders.tag 1).key - 1)).prio).heldOf]
+    apply HashHeap.amountOf_of_not_mem
+    intro hm
+    rw [hk1] at hm
+    exact ((hkeys1 _).1 hm).2 rfl
+  · rw [(PSt.init hi hv).heldOf, hk1]
+    exact hamt1
 
 end CimbaModel.Sim
